@@ -7,10 +7,23 @@ import gen_types as G
 BUDGET = {"quick": dict(n=1600, depth=3, shards=12), "thorough": dict(n=8000, depth=4, shards=16)}
 
 
+REFS_IN_LAYOUT = "heap_img_ok" in open(os.path.join(VERIF, "coq", "theories", "Layout", "Check.v")).read()
+
+
 def gen_case(rng, depth):
-    t = G.gen_type(rng, rng.randint(1, depth))
+    with_refs = REFS_IN_LAYOUT and rng.random() < 0.2
+    t = G.gen_type(rng, rng.randint(1, depth), allow_refs=with_refs)
     v = G.gen_value(rng, t)
     k = t["k"]
+    if with_refs and (G.has_kind(t, "ref") or G.has_kind(t, "union")):
+        # objects holding references: built from plain data (the referents are created next to them)
+        al = rng.choice([1, 2, 4, 8, 8, 8, 16, 32, 64])
+        pre = []
+        for _ in range(rng.choice([0, 0, 1, 3])):
+            pre.append(["alloc", rng.choice([1, 8, 16, 24, 40, 100])] if rng.random() < 0.65 else ["free", rng.randint(0, 5)])
+        return {"type": t, "value": v, "form": "py", "refs": True, "xobj_other_buffer": True,
+                "prep": {"kind": rng.choice(["numpy", "bytearray"]), "cap": rng.choice([0, 64, 256, 1024, 4096]), "al": al, "poison": rng.choice([0xA5, 0xFF, 0x01]), "pre": pre},
+                "placement": rng.choice([["default"], ["default"], ["aligned"], ["packed"]])}
     if k == "string":
         form = rng.choice(["py", "py", "cap", "xobj"])
     elif k == "struct":
@@ -95,6 +108,18 @@ def case_term(c, r):
     t = c["type"]; v = c["value"]
     ext = r["after"][r["off"]: r["off"] + (r["size"] or 0)]
     return "mkLC (%s) (%s) %s %s" % (G.ty_term(t), G.val_term(t, v), zlist(ext), zlit(r["size"] if r["size"] is not None else -1))
+
+
+def ref_case_term(c, r):
+    t = c["type"]; v = c["value"]
+    return "mkHC (%s) (%s) %s %s %s" % (G.ty_term(t), G.val_term(t, v), zlist(r["after"]), zlit(r["off"]), zlit(r["size"] if r["size"] is not None else -1))
+
+
+def ref_cases_file(pairs):
+    body = "From Coq Require Import ZArith List.\nImport ListNotations.\nFrom XO Require Import Types Format Check AllocSpec.\nOpen Scope Z_scope.\n"
+    body += "Definition cs : list hcase := [\n  " + ";\n  ".join(ref_case_term(c, r) for c, r in pairs) + "\n].\n"
+    body += 'Goal True. idtac "@@layoutrefs". exact I. Qed.\nEval vm_compute in (failing heap_img_ok 0%nat cs).\n'
+    return body
 
 
 def cases_file(pairs):
@@ -240,19 +265,22 @@ def run(ctx):
     for r in run_impl_parallel(ctx, "layout", payloads):
         results += r["results"]
     # Coq judgement for constructed objects
-    idx = [i for i, r in enumerate(results) if "off" in r and r.get("size") is not None]
-    SH = 60
+    idx = [i for i, r in enumerate(results) if "off" in r and r.get("size") is not None and not cases[i].get("refs")]
+    ridx = [i for i, r in enumerate(results) if "off" in r and r.get("size") is not None and cases[i].get("refs")]
+    SH = 60; RSH = 25
     files = [("cases_%s_%d" % (pid, j // SH), cases_file([(cases[i], results[i]) for i in idx[j:j + SH]])) for j in range(0, len(idx), SH)]
+    files += [("cases_%sr_%d" % (pid, j // RSH), ref_cases_file([(cases[i], results[i]) for i in ridx[j:j + RSH]])) for j in range(0, len(ridx), RSH)]
     res = coq_eval_many(ctx, files)
     codes = {}
     broken = None
-    for j in range(0, len(idx), SH):
-        rc, out = res["cases_%s_%d" % (pid, j // SH)]
-        pairs = parse_pairs(out) if rc == 0 else None
-        if pairs is None:
-            broken = out[-1500:]; continue
-        for a, b in pairs:
-            codes[idx[j + a]] = b
+    for fam, ids, sh in (("cases_%s_%%d" % pid, idx, SH), ("cases_%sr_%%d" % pid, ridx, RSH)):
+        for j in range(0, len(ids), sh):
+            rc, out = res[fam % (j // sh)]
+            pairs = parse_pairs(out) if rc == 0 else None
+            if pairs is None:
+                broken = out[-1500:]; continue
+            for a, b in pairs:
+                codes[ids[j + a]] = b
     bysig = {}
     for i, (c, r) in enumerate(zip(cases, results)):
         j = judge(pid, c, r, codes.get(i))
@@ -292,13 +320,14 @@ def run(ctx):
         hist["depth:%d" % G.depth_of(c["type"])] += 1
         hist["outcome:" + (r.get("stage") + ":" + r.get("exc", "") if "stage" in r else "constructed")] += 1
         hist["static" if G.is_static(c["type"]) else "dynamic"] += 1
+        if c.get("refs"): hist["holds-references"] += 1
         if sig_type(c["type"]).startswith("array-"): hist["has-non-C-order-array"] += 1
         hist["buffer:" + c["prep"]["kind"]] += 1
         if c.get("ghost") is not None: hist["ghost-freed-before:" + ("landed-on-it" if r.get("ghost") and r.get("off") == r["ghost"][0] else "elsewhere")] += 1
         if G.depth_of(c["type"]) >= 1:
             distinct.add(hashlib.sha1(json.dumps([c["type"], c["value"], c["form"]], sort_keys=True).encode()).hexdigest())
     k = len(cases) - 1
-    cov = dict(evaluations=len(cases), distinct_nontrivial=len(distinct), judged_in_coq=len(idx),
+    cov = dict(evaluations=len(cases), distinct_nontrivial=len(distinct), judged_in_coq=len(idx) + len(ridx), reference_holders_judged_in_coq=len(ridx),
                rule="seeded random (type, value, input form, placement, buffer preparation): types of depth <= %d over the 10 scalar kinds, String, Struct (0-4 fields), arrays 1-3D static/dynamic dims with every axis order; values incl. empty arrays/strings, multi-byte UTF-8, integer extremes, non-finite floats; forms plain data / numpy / another xobject / kwargs / capacity / lengths; buffers of both CPU kinds, capacity 0..4096, default alignment 1..64, prior allocations and frees, poisoned with non-zero bytes; placement default/aligned/packed/explicit. distinct = distinct (type, value, form) with a compound type" % bud["depth"],
                samples=[{"type": cases[k]["type"], "value": cases[k]["value"], "form": cases[k]["form"], "placement": cases[k]["placement"]}],
                distribution=dict(sorted(hist.items())), corpus_cases=len(corpus))
@@ -307,7 +336,7 @@ def run(ctx):
                   ["strings are valid UTF-8 without NUL; explicit placements point at space the caller reserved",
                    "scalar payloads are bit patterns: python-number -> dtype conversion is numpy's",
                    "arrays created from lengths only ('dims') are uninitialised by documentation: only their header is judged",
-                   "reference-free fragment here; Ref/UnionRef are covered by the C08/C09 checks"])
+                   "objects holding references are built from plain data and judged with the whole buffer (heap_img_ok: image of the holder + strict decoder following the references); reference histories are C08/C09"])
 
 
 def image_size(c):
@@ -348,7 +377,7 @@ def replay(ctx, path):
     res = run_impl(ctx, "layout", {"cases": [c]})["results"][0]
     code = None
     if "off" in res and res.get("size") is not None:
-        rc, out = coq_run(ctx, "replay_%s" % ctx.pid, cases_file([(c, res)]))
+        rc, out = coq_run(ctx, "replay_%s" % ctx.pid, (ref_cases_file if c.get("refs") else cases_file)([(c, res)]))
         pairs = parse_pairs(out) if rc == 0 else None
         code = pairs[0][1] if pairs else None
     j = judge(ctx.pid, c, res, code)
